@@ -408,9 +408,29 @@ pub fn ntru_gen(
 ) {
     // let mut rng: StdRng = SeedableRng::from_seed(seed);
 
+    // Coefficients must fit the fixed-width secret key encoding: f and g in
+    // 6 bits (n = 512) or 5 bits (n = 1024), F and G in 8 bits, two's complement
+    // without the minimum value. As in the reference implementation, candidates
+    // outside that range are discarded.
+    let lim_fg: i16 = match n {
+        1024 => 15,
+        512 => 31,
+        128 | 256 => 63,
+        _ => 127,
+    };
+    let lim_capital_fg: i32 = 127;
+
     loop {
         let f = gen_poly(n, rng);
         let g = gen_poly(n, rng);
+        if f
+            .coefficients
+            .iter()
+            .chain(g.coefficients.iter())
+            .any(|c| c.abs() > lim_fg)
+        {
+            continue;
+        }
 
         let f_ntt = f.map(|&i| Felt::new(i)).fft();
         if f_ntt.coefficients.iter().any(|e| e.is_zero()) {
@@ -431,6 +451,14 @@ pub fn ntru_gen(
         if let Some((capital_f, capital_g)) =
             ntru_solve_entrypoint(f.map(|&i| i as i32), g.map(|&i| i as i32))
         {
+            if capital_f
+                .coefficients
+                .iter()
+                .chain(capital_g.coefficients.iter())
+                .any(|c| c.abs() > lim_capital_fg)
+            {
+                continue;
+            }
             #[cfg(feature = "verif-hooks")]
             crate::verif::emit(crate::verif::Event::NtruCandidate { verdict: 0, gamma });
             return (
